@@ -202,19 +202,23 @@ Example C17_graph_dense_nonvacuous :
   (forall e p, In e (g_edges ising2) -> In p (e_opics e) -> In (fst p) [0; 1; 2]) /\
   ising2_lev (g_t1 ising2) = 0%nat /\
   (forall e, In e (g_edges ising2) -> ising2_lev (e_from e) = S (ising2_lev (e_to e))) /\
-  forallb (node_refs_ok GIring ising2) (g_nodes ising2) = true /\
-  exists M, graph_as_matrix pauli_opmap ising2 1 = Ok M /\ nr M = 4%nat /\
-            get M 0 0 = (0, 0) /\ get M 0 1 = (3, 0) /\ get M 1 1 = (-2, 0).
+  forallb (node_refs_ok GIring ising2) (g_nodes ising2) = true.
 Proof.
-  split; [|split; [|split; [|split; [|split; [|split]]]]].
+  split; [|split; [|split; [|split; [|split]]]].
   - intros o. unfold pauli_opmap. destruct (o =? 1); [|destruct (o =? 2)]; repeat split; reflexivity.
   - repeat constructor; simpl; intuition discriminate.
-  - intros e p He Hp. vm_compute in He.
-    repeat (destruct He as [<-|He]; [vm_compute in Hp; repeat (destruct Hp as [<-|Hp]; [vm_compute; auto 8|]); destruct Hp|]).
+  - intros e p He Hp. unfold ising2 in He; cbn [g_edges In] in He.
+    repeat (destruct He as [<-|He]; [cbn [e_opics In] in Hp; repeat (destruct Hp as [<-|Hp]; [cbn [fst In]; auto 8|]); destruct Hp|]).
     destruct He.
   - vm_compute. reflexivity.
-  - intros e He. vm_compute in He.
-    repeat (destruct He as [<-|He]; [vm_compute; reflexivity|]). destruct He.
+  - intros e He. unfold ising2 in He; cbn [g_edges In] in He.
+    repeat (destruct He as [<-|He]; [reflexivity|]). destruct He.
   - vm_compute. reflexivity.
-  - eexists. split; [vm_compute; reflexivity|]. repeat split; vm_compute; reflexivity.
 Qed.
+Example C17_graph_dense_nonvacuous_matrix :
+  match graph_as_matrix pauli_opmap ising2 1, graph_as_matrix pauli_opmap ising2 0 with
+  | Ok M, Ok M0 => Nat.eqb (nr M) 4 && keqb GIring (get M 0 0) (0, 0) && keqb GIring (get M 0 1) (3, 0) &&
+                   keqb GIring (get M 1 1) (-2, 0) && mxeqb M M0
+  | _, _ => false
+  end = true.
+Proof. vm_compute. reflexivity. Qed.
